@@ -86,6 +86,13 @@ def gen(rng, n):
         kids = [kid, bytes(16), bytes([0] * 15 + [1])][:rng.randint(1, 3)]
         out.append(('pssh-v1-zero-kids', full(b'pssh', 1, 0, sysid + u(4, len(kids)) + b''.join(kids) + u(4, len(data)) + data),
                     ('pssh', {'version': 1, '#system_id': sysid.hex(), '#key_ids': [k.hex() for k in kids]})))
+        out.append(('pssh-v1-no-kids', full(b'pssh', 1, 0, sysid + u(4, 0) + u(4, len(data)) + data),
+                    ('pssh', {'version': 1, '#system_id': sysid.hex(), '#key_ids': []})))
+        # an unrecognised uuid box (24-byte header) followed by further boxes, top level; the bytes after it must stay theirs
+        usertype = bytes(rng.randrange(256) for _ in range(16))
+        payload = bytes(rng.randrange(256) for _ in range(rng.randint(0, 40)))
+        tail = box(b'free', bytes(rng.randrange(256) for _ in range(rng.randint(16, 48)))) + box(b'skip', b'')
+        out.append(('uuid-unknown-then-boxes', box(b'uuid', usertype + payload) + tail, ('children', {})))
         # moof(mfhd, traf(tfhd, trun)): every optional-field combination of tfhd and every per-sample combination of trun
         tf_flags = rng.choice([0, 1, 2, 8, 0x10, 0x20, 0x3b, 0x20000, 0x20038, 0x2002a])
         body = u(4, rng.randrange(1, 2**32))
